@@ -96,6 +96,7 @@ Section Main.
           { unfold fixed_body in Ef. destruct (st_kind s).
             - destruct (Z.ltb_spec (blen (st_data s)) (hcl (rh (r_hd R)))); [discriminate Ef|].
               destruct (Z.eqb_spec (blen (st_data s)) (hcl (rh (r_hd R)))) as [E|E]; [|discriminate Ef].
+              destruct (st_fail s && st_with s && nonempty (st_data s)); [discriminate Ef|].
               injection Ef as <-. split; [|exact E]. rewrite <- E. unfold blen. rewrite Nat2Z.id. apply firstn_all.
             - destruct (Z.eqb_spec (blen (st_data s)) (hcl (rh (r_hd R)))) as [E|E]; [|discriminate Ef].
               injection Ef as <-. split; [reflexivity|exact E].
